@@ -8,7 +8,7 @@
    notification calls.  [log g x o f] is the global event log of one service life time as
    otelcol/collector.go drives it (Service.Start; Service.Shutdown also after a failed Start);
    [before a b l]: at every occurrence of b in l, a has occurred earlier. *)
-From Verif Require Import Common.Base C10.Model C10.Proofs1 C10.Proofs2 C10.Proofs3 C10.Proofs4 C10.Proofs5 C10.Proofs6 C10.Proofs7 C10.Proofs8.
+From Verif Require Import Common.Base C10.Model C10.Proofs1 C10.Proofs2 C10.Proofs3 C10.Proofs4 C10.Proofs5 C10.Proofs6 C10.Proofs7 C10.Proofs8 C10.Checker C10.Proofs9 C10.Proofs10.
 
 (* the checker that validates the order taken from the implementation is sound *)
 Theorem is_topo_sound : forall ns es o, is_topo ns es o = true ->
@@ -232,6 +232,51 @@ Print Assumptions start_downstream_first_computed.
 Theorem kind_is_comp_generated : forall k, kind_is_comp k = implements_component (generated_method_set k).
 Proof. exact l_kind_is_comp_generated. Qed.
 Print Assumptions kind_is_comp_generated.
+
+(* ---- the decidable clause checker run by the check on the OBSERVED behaviour of every case decides
+   exactly the clauses (Checker.v: counts, start / stop order along every sends-to pair, extensions
+   first / last / in dependency order, an injected start failure is the last Start call and reported
+   first, injected shutdown failures are reported) *)
+Theorem prop_ok_iff : forall o, prop_ok o = true <-> Clauses o.
+Proof. exact l_prop_ok_iff. Qed.
+Print Assumptions prop_ok_iff.
+
+Theorem violated_nil_iff : forall o, violated o = [] <-> prop_ok o = true.
+Proof. exact l_violated_nil. Qed.
+Print Assumptions violated_nil_iff.
+
+(* the model satisfies the checker for every topology, valid orders and failure assignment: the
+   checker is consistent with the theorems above (and not vacuous: Witness.prop_ok_examples) *)
+Theorem prop_ok_model : forall g x o f R fcs fxs fcp fxp, orders_ok g x o = true ->
+  (forall u v, In (u, v) R -> path (edges g) u v /\ In u (comps g) /\ In v (comps g)) ->
+  (forall n, In n fcs -> fc_start f n = true) -> (forall n, In n fxs -> fx_start f n = true) ->
+  (forall n, In n fcp -> fc_stop f n = true) -> (forall n, In n fxp -> fx_stop f n = true) ->
+  prop_ok (model_obs g x o f R fcs fxs fcp fxp) = true.
+Proof. exact l_prop_ok_model. Qed.
+Print Assumptions prop_ok_model.
+
+(* "on shutdown the order is reversed", extensions: the Shutdown calls of the extensions are the exact
+   reverse of the computed order, the Start calls a prefix of it; without an extension start failure
+   the shutdown sequence is the exact reverse of the start sequence *)
+Theorem extensions_stop_in_reverse : forall g x o f,
+  let L := fst (collector_run g x o f) in
+  xstops L = rev (ext_order o) /\ prefix (xstarts L) (ext_order o) /\
+  ((forall e, In e (ext_order o) -> fx_start f e = false) -> xstops L = rev (xstarts L)).
+Proof. exact l_ext_reverse. Qed.
+Print Assumptions extensions_stop_in_reverse.
+
+(* a shared component is STARTED exactly once as soon as one of the graph nodes that share it starts *)
+Theorem shared_started_once : forall g x o f shared k fs fp n,
+  In (CStart n) (log g x o f) -> key_of shared n = Some k ->
+  count (IStart k) (inner_events shared k fs fp (log g x o f)) = 1.
+Proof. exact l_shared_started_once. Qed.
+Print Assumptions shared_started_once.
+
+(* the well-formedness check evaluated on every correspondence case implies the hypothesis of the
+   theorems about computed orders *)
+Theorem wf_b_sound : forall g x, wf_b g x = true -> wf_topology g x.
+Proof. exact l_wf_b_sound. Qed.
+Print Assumptions wf_b_sound.
 
 (* sharedcomponent: for EVERY script of Start / Shutdown calls on one shared Component the inner
    component is started at most once and shut down at most once; once as soon as the script
